@@ -36,7 +36,9 @@ CLAIMS = {
          "for all registries, exception values, payloads and constructor behaviours (constructors are a quantified oracle): URI "
          "selection, payload preservation (with/without traceback forwarding), class-or-fallback, call completion, end-to-end "
          "composition; refuted parts proved with witnesses (reserved kwarg names, own 'traceback' kwarg, read-only detail "
-         "attribute). Differential run: two real sessions back to back through real json/msgpack/cbor on both frameworks.",
+         "attribute). Differential run: two real sessions back to back through real json/msgpack/cbor on both frameworks, "
+         "incl. exceptions raised on the call-cancelling path (C18_error_after_interrupts) and registered ApplicationError "
+         "subclasses carrying another URI.",
          "Trusted: Coq kernel; hand-written model tied by differential runs. Application values opaque (serializer fidelity is C03); "
          "constructors = oracle returning an instance or raising an Exception subclass; uri.Pattern acceptance a predicate. "
          "Known findings: reserved-kwarg-dropped, traceback-overwrites-kwarg, read-only-detail-attribute.",
@@ -47,7 +49,9 @@ CLAIMS = {
          "sealed box under the paired key recovers it, anything else opens to None): exact recovery, no clear payload in the "
          "message, URI binding, no delivery on failure, authenticity of everything delivered, longest-prefix keyring lookup; "
          "refuted with witnesses: clear YIELD on encode failure, ERROR keyed by error URI. Differential run with real PyNaCl: "
-         "keyring layouts x directions x faults, every single-octet alteration of a ciphertext.",
+         "keyring layouts x directions x faults, every single-octet alteration of a ciphertext, histories of set_key "
+         "interleaved with traffic on one KeyRing object (C20_lookup_after_history, ...), every way of registering "
+         "the procedure the ciphertext is bound to.",
          "Trusted: Coq kernel; aead_ok (NaCl crypto_box authenticity) and json_ok are premises, not proved; the model run uses a "
          "toy cipher proved to satisfy aead_ok; confidentiality is NaCl's; pytrie longest-prefix semantics mirrored.",
          "Coq with oracle premises + real-crypto differential and tamper sweep"),
@@ -57,7 +61,9 @@ CLAIMS = {
          "published args/kwargs + own details only, handlers deactivated mid-dispatch passed over), isolation of raising "
          "handlers, never-after-unsubscribe, UNSUBSCRIBE iff last handler, racing events dropped, unknown id = ProtocolError. "
          "Differential run: generated histories (re-entrant handlers, decorated objects, all payload shapes) on the real "
-         "session under Twisted and asyncio vs the model, plus an oracle recomputing deliveries from the property text.",
+         "session under Twisted and asyncio vs the model, plus an oracle recomputing deliveries from the property text; "
+         "SubscribeOptions normalisation over its whole argument grid (C11_options_normalisation), replies and events "
+         "delivered re-entrantly from inside send() (C11_subscribed_inside_send, C11_unsubscribed_inside_send).",
          "Trusted: Coq kernel; hand-written model tied by differential runs; CPython dict/list semantics and txaio callback "
          "ordering mirrored. Not modelled/generated: encrypted payloads, coroutine handlers, id wrap at 2^53, re-join.",
          "invariant + inductive dispatch relation over a Gallina state machine; differential run on virtual time"),
@@ -81,7 +87,8 @@ CLAIMS = {
          "invocation while the transport is up and classifies correctly, at most one unconditionally, the three real send() "
          "implementations classified, progress only if requested, argument fidelity, INTERRUPT gives ERROR; progress-before-"
          "terminal refuted with a witness (known finding). Differential run: real session on scripted and on the four real "
-         "transports (octets in, octets out), both frameworks, vs the model + an oracle from the property text.",
+         "transports (octets in, octets out), both frameworks, vs the model + an oracle from the property text; tri-state "
+         "invocation details (absent/false/true), object registrations with per-method options.",
          "Trusted: Coq kernel; hand-written model tied by differential runs. Modelled, not verified: txaio callback semantics, "
          "asyncio Task ordering, payload size/serializability as abstract flags. Outside the model: payload encryption (C20), "
          "traceback_app (C18). Known finding: session.progress/after-terminal-reply.",
@@ -104,7 +111,9 @@ CLAIMS = {
          "involution) with RFC 5802 AuthMessage assembly and pbkdf2/argon2id dispatch, on_welcome accepts iff the exact server "
          "signature, cryptosign signs challenge XOR channel id; hex/base64 codecs concrete with proved round trips. "
          "Differential run: the model evaluated with the recorded primitive calls as oracle tables reproduces the real code byte "
-         "for byte; independent RFC verifiers (PBKDF2, HOTP/TOTP, SCRAM server, Ed25519) and single-bit alteration sweeps.",
+         "for byte; independent RFC verifiers (PBKDF2, HOTP/TOTP, SCRAM server, Ed25519) and single-bit alteration sweeps; "
+         "full HELLO/CHALLENGE/AUTHENTICATE/WELCOME conversations through the real session and its onWelcome gate over "
+         "every WELCOME shape (C19_session_join_implies_verified, C19_session_scram_only_mutual).",
          "Partial: 'any alteration yields a different signature' is collision resistance/unforgeability of the primitives - assumed, "
          "sampled by bit flips, not proved. Trusted: Coq kernel; model tied by recorded-oracle correspondence plus one AST-read "
          "flag (fail-closed); saslprep, repr(bytes) are oracles.",
@@ -118,7 +127,9 @@ CLAIMS = {
          "server speaks, same serializer and framing on both ends; error mapping 1002/1011/abort; session told exactly once. "
          "Serializer ids, BINARY flags, defaults regenerated from the source. Differential run: all 2^16 handshake octet pairs x "
          "reserved x segmentation x role x framework, framing streams under every split, all four client/server framework "
-         "pairings, corruption at every position, on the real classes.",
+         "pairings, corruption at every position, malformed-but-decodable messages (C13_protocol_violation_closes), announced "
+         "vs enforced receive limit for sizes that are not powers of two (C13_rs_announced_is_enforced), several reads per "
+         "asyncio loop iteration (C13_ws_adapter_order), on the real classes.",
          "Partial: Twisted IntNStringReceiver and the serializers are library code modelled/oracle; the WebSocket engine under the "
          "WAMP mixins is C01/C02/C05/C07; int() is an oracle. Known finding (thorough tier): 2^24-octet boundary with an asyncio "
          "receiver.",
@@ -170,7 +181,9 @@ CLAIMS = {
          "all octets, segmentations and oracle behaviours, own client and server interoperate under spelled-out compatibility, "
          "connection count <= limit for all histories. latin-1 strip/lower/splitlines tables and constants regenerated from the "
          "interpreter and source. Differential run: ~390 single mutations of valid requests/responses, arbitrary octets under "
-         "all splits, multi-connection histories, end-to-end client x server option matrix, on both frameworks.",
+         "all splits, multi-connection histories, end-to-end client x server option matrix, origin/port matrix (origin as the "
+         "triple scheme, host, port-or-absent), configuration plumbing of every handshake option with probing requests "
+         "(C07_config_unrelated/_interleave/_last_wins), on both frameworks.",
          "Partial: urllib.parse, hyperlink, hashlib.sha1 and the PMCE classes are oracles (their raising behaviour included), "
          "recorded from the real libraries in the runs. Not modelled: TLS, proxies, unix URLs. Known findings: origin not checked "
          "for draft versions 11/12; linebreak-in-value (server and client).",
@@ -183,7 +196,8 @@ CLAIMS = {
          "progressive results local to their call, unmatched reply = ProtocolError, only ProtocolError ever leaves onMessage. "
          "Message type codes and id bounds regenerated from the source. Differential run: generated histories (six request kinds, "
          "replies success/error/progressive/duplicated/unknown/wrong-type in adversarial orders, events and invocations "
-         "interleaved) on the real session under both frameworks vs the model + an oracle from the property text.",
+         "interleaved; send() failing in each of its ways for each request kind; several lives of one session object with "
+         "ids restarting at 1) on the real session under both frameworks vs the model + an oracle from the property text.",
          "Trusted: Coq kernel; hand-written model tied by differential runs; txaio continuation semantics, dict order, URI "
          "validation, payload codec and exception-class lookup are mirrored/abstract; the transport is a fake ITransport. "
          "Known finding: duplicate registration id -> future never completes.",
@@ -196,7 +210,8 @@ CLAIMS = {
          "raise; asyncio - the life cycle equals Twisted's whenever the loop settles between events (proved), and the unsettled "
          "schedules are refuted with witnesses (known findings). Differential run: router conversations + one illegal message "
          "at every position, local leave/disconnect, raising callbacks, transport loss at every position, table populations, "
-         "three asyncio turn spacings, on the real session.",
+         "three asyncio turn spacings, sequences of lives of one session object (every per-life statement holds in each "
+         "life), every API x every local-state shape after the end, on the real session.",
          "Partial for asyncio: ordering/goodbye-once hold only for settled schedules. Trusted: as C04; one transport connection "
          "per session object, no re-entrant API calls from callbacks; an asyncio loop iteration is modelled as _run_once. Known "
          "findings: phase gate after the end, asyncio deferred continuation (6 keys), pending future on duplicate registration, "
@@ -237,7 +252,10 @@ CLAIMS = {
          "terminates and is judged exactly as the declarative RFC reference (C02_sequence); segmentation independence proved "
          "for failByDrop=true from every reachable state, refuted with a witness for failByDrop=false (known finding). "
          "Differential run: header sweep in 64 receiver contexts (thorough: all 65536 values), mutated frame sequences under "
-         "every split, both roles and frameworks, judged by an independent RFC oracle and re-evaluated by the model.",
+         "every split, both roles and frameworks, judged by an independent RFC oracle and re-evaluated by the model; "
+         "configuration plumbing (every option alone / before / after / together / set back on both factories vs the "
+         "protocol's effective options), the three receive APIs with application hooks that do not chain (nothing "
+         "reaches the application after a failure), several connections in one process.",
          "Trusted: Coq kernel, the ast/import translator (fail-closed), CPython utf-8 codec and zlib as oracles. Modelled, not "
          "verified: the UTF-8 validator as the RFC 3629 automaton (table equality is C09), the masker as xor_spec (C15), the "
          "decompressor as a Section oracle; timers, statistics, asyncio receive queue unmodelled. Known findings: split-dependent/"
@@ -249,7 +267,10 @@ CLAIMS = {
          "offending header (header octets alone suffice), running total over fragments, runs without a 1009 are identical to "
          "runs without limits, over-limit sendMessage raises and writes nothing; the decompression cap statement is refuted on "
          "the model with a witness (known findings), with the partial positive for chunks within the cap. Differential run: "
-         "limits grid x sizes L-1/L/L+1/10L x fragment layouts x role x policy x delivery shapes, send guard, real-zlib cap.",
+         "limits grid x sizes L-1/L/L+1/10L x fragment layouts x role x policy x delivery shapes, real-zlib cap; every send API "
+         "(sendMessage whole/fragmented/doNotCompress, prepared messages) x deflate on/off x limits with a real inflater as "
+         "peer (theorems C16_send_refused_all_apis, C16_send_whole_or_nothing, C16_peer_reads_accepted over any "
+         "compressor/inflater pair obeying the context-takeover laws); configuration plumbing; three receive APIs.",
          "Partial: zlib is an oracle (stream laws in theorems, replay tape in runs); limits bound the wire payload. Known "
          "findings: decompress-cap/truncated, decompress-cap/escaped-error.",
          "invariants, simulation, refutation witness, differential runs"),
